@@ -3,6 +3,7 @@ use serde_json::Value;
 use crate::engine::{Ctx, Outcome};
 
 pub mod c01;
+pub mod c03;
 pub mod c06;
 pub mod c09;
 pub mod c10;
@@ -19,6 +20,10 @@ pub fn lookup(id: &str) -> Option<Prop> {
         "C01" => Prop {
             check: c01::check,
             replay: c01::replay,
+        },
+        "C03" => Prop {
+            check: c03::check,
+            replay: c03::replay,
         },
         "C06" => Prop {
             check: c06::check,
